@@ -12,7 +12,7 @@ HIST_TYPES = {r'^single:BlockHeight$': 'Header'}
 POOL_TYPES = {r'^single:PoolKey$': 'PoolState'}
 
 
-def sym_tx(name, n_in, n_out, n_cov, pc, kind=None, exclude_kinds=()):
+def sym_tx(name, n_in, n_out, n_cov, pc, kind=None, exclude_kinds=(), n_sigs=0):
     """symbolic Transaction with concrete shape (n_in inputs, n_out outputs, n_cov covenants)"""
     terms = {}
     if kind is None:
@@ -38,7 +38,8 @@ def sym_tx(name, n_in, n_out, n_cov, pc, kind=None, exclude_kinds=()):
     terms['fee'] = fee
     covs = [S.sym_bytes('%s_cov%d' % (name, i), pc) for i in range(n_cov)]
     data = S.sym_bytes(name + '_data', pc)
-    sigs = Agg('Vec', [])
+    # signatures are not part of a transaction's identity (hash_nosigs clears them): symbolic ones make that visible
+    sigs = Agg('Vec', [S.sym_bytes('%s_sig%d' % (name, i), pc) for i in range(n_sigs)])
     tx = Agg('Transaction', [k, Agg('Vec', ins), Agg('Vec', outs), S.coinvalue(fee), Agg('Vec', covs), data, sigs])
     return tx, terms
 
